@@ -83,6 +83,7 @@ pub fn step_case(s: &Step) -> Case {
     if defects.contains(&NoCarrier) && defects.contains(&BothCarriers) {
         defects.retain(|d| *d != BothCarriers);
     }
+    super::c13::reduce_signature_defects(&mut defects);
     if s.req.query_carrier {
         defects.retain(|d| *d != ParamNoEquals);
     }
